@@ -274,9 +274,10 @@ var kinds = []kind{
 // ---------- peer contexts ----------
 
 type peerCtx struct {
-	name    string
-	ctx     context.Context
-	trusted bool
+	name     string
+	ctx      context.Context
+	trusted  bool // AuthInfo is the node's own peerauth.AuthInfo
+	plainTLS bool // AuthInfo is an unwrapped credentials.TLSInfo
 }
 
 // serverAuthInfo mirrors trustedPeerCredentials.ServerHandshake of
@@ -312,34 +313,96 @@ var peerCtxs = func() []peerCtx {
 		return peer.NewContext(context.Background(), &peer.Peer{AuthInfo: ai})
 	}
 	x384, y384 := elliptic.P384().ScalarBaseMult([]byte{7})
+	p256a, p256b := &gensign.Key(0).PublicKey, &gensign.Key(3).PublicKey
+	p384 := &ecdsa.PublicKey{Curve: elliptic.P384(), X: x384, Y: y384}
+	rsaKey := &rsa.PublicKey{N: big.NewInt(3233), E: 17}
+	tlsCerts := func(pubs ...any) credentials.TLSInfo {
+		var st tls.ConnectionState
+		for _, p := range pubs {
+			st.PeerCertificates = append(st.PeerCertificates, &x509.Certificate{PublicKey: p})
+		}
+		return credentials.TLSInfo{State: st}
+	}
+	genuine, err := peerauth.NewAuthInfo(tlsWith(p256a))
+	if err != nil {
+		panic(err)
+	}
 	res := []peerCtx{
 		{name: "no-peer", ctx: context.Background()},
 		{name: "peer-no-auth", ctx: withPeer(nil)},
 		{name: "peer-insecure", ctx: withPeer(plainAuth{})},
+		{name: "peer-other-tls-authtype", ctx: withPeer(otherTLSAuth{tlsWith(p256a)})},
+		{name: "peer-ptr-to-authinfo", ctx: withPeer(&genuine)},
+		// what the node's mTLS credentials (cmd/neofs-node/mtls.go) report
 		{name: "tls-no-client-cert", ctx: withPeer(serverAuthInfo(tlsWith(nil)))},
-		{name: "tls-p384-cert", ctx: withPeer(serverAuthInfo(tlsWith(&ecdsa.PublicKey{Curve: elliptic.P384(), X: x384, Y: y384})))},
-		{name: "tls-rsa-cert", ctx: withPeer(serverAuthInfo(tlsWith(&rsa.PublicKey{N: big.NewInt(3233), E: 17})))},
-		{name: "tls-p256-cert", ctx: withPeer(serverAuthInfo(tlsWith(&gensign.Key(0).PublicKey)))},
-		{name: "tls-p256-cert-2", ctx: withPeer(serverAuthInfo(tlsWith(&gensign.Key(3).PublicKey)))},
-	}
-	for i := range res {
-		res[i].trusted = res[i].name == "tls-p256-cert" || res[i].name == "tls-p256-cert-2"
+		{name: "tls-p384-cert", ctx: withPeer(serverAuthInfo(tlsWith(p384)))},
+		{name: "tls-rsa-cert", ctx: withPeer(serverAuthInfo(tlsWith(rsaKey)))},
+		// a listener with standard, unwrapped gRPC TLS credentials: plain credentials.TLSInfo
+		// whatever certificate (self-signed, unverified) the client presented. Never authenticated.
+		{name: "plainTLSInfo-0certs", ctx: withPeer(tlsCerts()), plainTLS: true},
+		{name: "plainTLSInfo-p256", ctx: withPeer(tlsCerts(p256a)), plainTLS: true},
+		{name: "plainTLSInfo-p256-other", ctx: withPeer(tlsCerts(p256b)), plainTLS: true},
+		{name: "plainTLSInfo-2certs-p256-p256", ctx: withPeer(tlsCerts(p256a, p256b)), plainTLS: true},
+		{name: "plainTLSInfo-2certs-rsa-p256", ctx: withPeer(tlsCerts(rsaKey, p256a)), plainTLS: true},
+		{name: "plainTLSInfo-p384", ctx: withPeer(tlsCerts(p384)), plainTLS: true},
+		{name: "plainTLSInfo-rsa", ctx: withPeer(tlsCerts(rsaKey)), plainTLS: true},
+		// genuine: peerauth.AuthInfo, produced only after the node authenticated the peer
+		{name: "tls-p256-cert", ctx: withPeer(serverAuthInfo(tlsWith(p256a))), trusted: true},
+		{name: "tls-p256-cert-2", ctx: withPeer(serverAuthInfo(tlsWith(p256b))), trusted: true},
+		{name: "authinfo-2certs", ctx: withPeer(serverAuthInfo(tlsCerts(p256b, rsaKey))), trusted: true},
 	}
 	return res
 }()
 
+// otherTLSAuth is a foreign credentials.AuthInfo implementation that embeds TLS
+// info with a P-256 certificate but is not the node's peerauth.AuthInfo.
+type otherTLSAuth struct{ credentials.TLSInfo }
+
+var trustedCtxs, plainTLSCtxs = func() (tr, pl []peerCtx) {
+	for _, p := range peerCtxs {
+		if p.trusted {
+			tr = append(tr, p)
+		}
+		if p.plainTLS {
+			pl = append(pl, p)
+		}
+	}
+	return
+}()
+
 func init() {
-	// self-check of the harness: only the P-256 client certificates give AuthInfo
+	// self-check of the harness: trusted <=> the peer's AuthInfo is (by value) the node's own
+	// peerauth.AuthInfo; that is the documented rule ("ctx was authenticated during the TLS handshake")
 	for _, p := range peerCtxs {
 		pr, _ := peer.FromContext(p.ctx)
-		_, isAuth := any(nil), false
+		isAuth := false
 		if pr != nil {
 			_, isAuth = pr.AuthInfo.(peerauth.AuthInfo)
 		}
 		if isAuth != p.trusted {
 			panic("harness: peer context " + p.name + " trusted flag mismatch")
 		}
+		if pr != nil {
+			if _, isTLS := pr.AuthInfo.(credentials.TLSInfo); isTLS != (p.plainTLS || p.name == "tls-no-client-cert" || p.name == "tls-p384-cert" || p.name == "tls-rsa-cert") {
+				panic("harness: peer context " + p.name + " plain TLS flag mismatch")
+			}
+		}
 	}
+	if len(trustedCtxs) == 0 || len(plainTLSCtxs) == 0 {
+		panic("harness: empty context class")
+	}
+}
+
+// ctxLabels: distribution labels of one (context, request) combination.
+func ctxLabels(pc peerCtx, ttl1, noHeader bool) []string {
+	var l []string
+	if pc.plainTLS && ttl1 && noHeader {
+		l = append(l, "plainTLSInfo&ttl1&noheader")
+	}
+	if pc.trusted && ttl1 && noHeader {
+		l = append(l, "authinfo&ttl1&noheader")
+	}
+	return l
 }
 
 // ---------- building signed chains ----------
@@ -760,8 +823,14 @@ func TestC33Chains(t *testing.T) {
 		c := genChain(t)
 		req, mu := mutate(t, c)
 		pc := peerCtxs[rapid.IntRange(0, len(peerCtxs)-1).Draw(t, "ctx")]
-		if mu.name == "strip-vh" && rapid.Bool().Draw(t, "preferTrusted") {
-			pc = peerCtxs[len(peerCtxs)-1-rapid.IntRange(0, 1).Draw(t, "trustedIdx")]
+		if mu.name == "strip-vh" {
+			// the exemption decision: bias to the two classes that differ only in the AuthInfo type
+			switch rapid.IntRange(0, 3).Draw(t, "ctxClass") {
+			case 0:
+				pc = trustedCtxs[rapid.IntRange(0, len(trustedCtxs)-1).Draw(t, "trustedIdx")]
+			case 1:
+				pc = plainTLSCtxs[rapid.IntRange(0, len(plainTLSCtxs)-1).Draw(t, "plainIdx")]
+			}
 		}
 		k := c.k
 		body, meta, vh := k.body(req), req.GetMetaHeader(), req.GetVerifyHeader()
@@ -772,6 +841,7 @@ func TestC33Chains(t *testing.T) {
 		refN3 := refVerify(body, meta, vh, true)
 
 		labels := []string{"kind:" + k.name, fmt.Sprintf("layers:%d", c.layers), "mode:" + c.mode, "mut:" + mu.name, "ctx:" + pc.name}
+		labels = append(labels, ctxLabels(pc, meta.GetTtl() == 1 && meta != nil, vh == nil)...)
 		if c.hasN3 {
 			labels = append(labels, "has-n3")
 		}
@@ -863,6 +933,49 @@ func TestC33Chains(t *testing.T) {
 func TestC33Exemption(t *testing.T) {
 	rec := ev.New("C33", "exemption")
 	defer rec.Flush()
+	// Exhaustive part (every run, every shard): all peer contexts x TTL x {meta, no meta} for a
+	// header-less request. Accepted only by the context-aware entry points, only for TTL == 1 and
+	// only when the peer's AuthInfo is the node's own peerauth.AuthInfo.
+	for _, pc := range peerCtxs {
+		for _, ttl := range []uint32{0, 1, 2, 3, 255, 256, 257, 1<<32 - 1} {
+			for _, withMeta := range []bool{true, false} {
+				var meta *protosession.RequestMetaHeader
+				if withMeta {
+					meta = &protosession.RequestMetaHeader{Ttl: ttl, Version: &refs.Version{Major: 2, Minor: 18}}
+				}
+				k := kinds[0]
+				req := k.mk(&protoobject.GetRequest_Body{}, meta, nil)
+				want := pc.trusted && withMeta && ttl == 1
+				what := fmt.Sprintf("table: ctx=%s ttl=%d meta=%v vh=nil", pc.name, ttl, withMeta)
+				rec.Case(true, what, append(ctxLabels(pc, ttl == 1 && withMeta, true), "table")...)
+				if err := k.plain(req); err == nil || !isSigVerification(err) {
+					t.Fatalf("VerifyRequestSignatures accepted a request without verification header (err=%v): %s", err, what)
+				}
+				for _, r := range []struct {
+					name string
+					err  error
+				}{
+					{"VerifyRequestSignaturesWithContext", k.withCtx(pc.ctx, req)},
+					{"VerifyRequestSignaturesN3", k.n3(pc.ctx, req, fakeChain{})},
+				} {
+					name, err := r.name, r.err
+					if (err == nil) != want {
+						t.Fatalf("%s: accepted=%v (err=%v), expected accepted=%v: %s", name, err == nil, err, want, what)
+					}
+					if err != nil && !isSigVerification(err) {
+						t.Fatalf("%s: rejection is not apistatus.SignatureVerification: %v: %s", name, err, what)
+					}
+				}
+				if got := peerauth.IsTrustedPeer(pc.ctx); got != pc.trusted {
+					t.Fatalf("peerauth.IsTrustedPeer(%s) = %v, want %v", pc.name, got, pc.trusted)
+				}
+				if key, err := peerauth.PeerPublicKey(pc.ctx); err != nil || (key != nil) != pc.trusted {
+					t.Fatalf("peerauth.PeerPublicKey(%s) = %v, %v; a key is expected only for an authenticated peer", pc.name, key, err)
+				}
+			}
+		}
+	}
+	rec.Set("exemption_table_exhaustive", true)
 	rapid.Check(t, func(t *rapid.T) {
 		k := kinds[rapid.IntRange(0, len(kinds)-1).Draw(t, "kind")]
 		pc := peerCtxs[rapid.IntRange(0, len(peerCtxs)-1).Draw(t, "ctx")]
@@ -879,15 +992,19 @@ func TestC33Exemption(t *testing.T) {
 			}
 		}
 		body := k.genBody(t)
-		vhKind := rapid.SampledFrom([]string{"nil", "nil", "nil", "empty", "signed", "garbage"}).Draw(t, "vh")
+		vhKind := rapid.SampledFrom([]string{"nil", "nil", "nil", "empty", "signed", "corrupted", "garbage"}).Draw(t, "vh")
 		var vh *protosession.RequestVerificationHeader
 		switch vhKind {
 		case "empty":
 			vh = &protosession.RequestVerificationHeader{}
-		case "signed":
+		case "signed", "corrupted":
 			var err error
 			if vh, err = k.sign(genSigner(t, "signer").s, k.mk(body, meta, nil)); err != nil {
 				t.Fatalf("harness: %v", err)
+			}
+			if vhKind == "corrupted" {
+				sg := vh.MetaSignature.Sign
+				sg[rapid.IntRange(0, len(sg)-1).Draw(t, "corruptPos")] ^= 1 << rapid.IntRange(0, 7).Draw(t, "corruptBit")
 			}
 		case "garbage":
 			vh = &protosession.RequestVerificationHeader{BodySignature: &refs.Signature{Key: []byte{1}, Sign: []byte{2}}, MetaSignature: &refs.Signature{}}
@@ -898,6 +1015,7 @@ func TestC33Exemption(t *testing.T) {
 		refN3 := refVerify(k.body(req), meta, vh, true)
 		what := fmt.Sprintf("%s ctx=%s ttl=%d meta=%v vh=%s", k.name, pc.name, ttl, meta != nil, vhKind)
 		labels := []string{"ctx:" + pc.name, "vh:" + vhKind, fmt.Sprintf("ttl1:%v", ttl == 1), fmt.Sprintf("meta:%v", meta != nil)}
+		labels = append(labels, ctxLabels(pc, ttl == 1 && meta != nil, vh == nil)...)
 		if exempt {
 			labels = append(labels, "exempt")
 		}
